@@ -205,6 +205,14 @@ fn judge_at(c: &Pair, x: &Vec<u8>, t: &Vec<u8>, st: &mut Stats) -> Verdict {
         &|i| shape2(i),
         st,
     )?;
+    // the number a caller removes from its buffer: v2 Header::len() is 16 + the declared length
+    if let Ok(Ok(h)) = imp::v2_parse(x) {
+        if let Some(want) = v2_len(x) {
+            if h.len() != want || h.as_bytes().len() != want {
+                return Err(Fail::new("bytes-to-remove:v2::Header::len", shape2(x), "v2::Header::len()", format!("{} (16 + declared length)", want), format!("len() {} as_bytes().len() {}", h.len(), h.as_bytes().len())));
+            }
+        }
+    }
     check_parser(
         "HeaderResult::parse",
         x,
